@@ -71,6 +71,8 @@ def one_op(t, view, k, op, out, prefix, forks=None):
                 out.append('%d.%s=%s' % (k, prefix, status(lambda: to_val(t, f))))
             else:
                 out.append('%d.%s=err' % (k, prefix))
+        elif o == 'eqself':
+            out.append('%d.%s=%s' % (k, prefix, status(lambda: view == view.copy())))
         elif o == 'vbl':
             out.append('%d.%s=%s' % (k, prefix, status(lambda: view.value_byte_length())))
         elif o == 'len':
@@ -102,7 +104,7 @@ def run_ops(t, view, ops, out, prefix):
 
 
 def is_atomic_mut(op):
-    return op[0] in ('set', 'app', 'pop', 'chg', 'cpy', 'setf', 'seth', 'setb', 'sub')
+    return op[0] in ('set', 'app', 'pop', 'chg', 'cpy', 'setf', 'seth', 'setb', 'setc', 'setv', 'setn', 'sub')
 
 
 def refetched(old, new):
@@ -232,6 +234,13 @@ def run_virt(t, v, ops):
     y = T.view_from_backing(vroot)
     z = T.view_from_backing(b)
     out.append('p.root=%s/%s' % (status(lambda: y.hash_tree_root().hex()), hexr(b)))
+
+    def vcost():
+        # a view re-created over the same lazily loaded backing: its root is known, nothing is hashed
+        y2 = T.view_from_backing(vroot)
+        _, c1 = P.hashes_during(lambda: y2.hash_tree_root())
+        return '%d/%d' % (c1, int(y2.get_backing() is vroot))
+    out.append('p.vcost=%s' % status(vcost))
     run_ops(t, y, ops, out, 'p')
     run_ops(t, z, ops, out, 'c')
     # each node asked the source for a given thing at most once
